@@ -1,5 +1,4 @@
-import B6.Lemmas.SearchUnion
-import B6.Lemmas.SearchInter
+import B6.Lemmas.SearchPosting
 /-!
 # Compiled query trees refine the cursor of the list they denote (C06) — `compile_refines`
 
@@ -281,73 +280,178 @@ theorem denote_length_le (ix : Index) (hv : ix.Valid) (q : SQuery) : (q.denote i
 
 /-! ## the closed operations restricted to one constructor -/
 
-theorem ops_dom (F d k : Nat) : (ops F d).dom k := by cases d <;> trivial
+theorem ops_dom (K : Nat → Prop) (F d k : Nat) (hk : K k) : (ops K F d).dom k := by cases d <;> exact hk
 
-theorem leaf_embed (F d : Nat) {l : Leaf} {c : Cursor} (h : RefinesAt Leaf.ops l c) :
-    RefinesAt (ops F d) (.leaf l) c := by
+theorem dom_ops {K : Nat → Prop} {F d k : Nat} (hk : (ops K F d).dom k) : K k := by cases d <;> exact hk
+
+theorem leaf_embed (K : Nat → Prop) (F d : Nat) {l : Leaf} {c : Cursor} (h : RefinesAt Leaf.ops l c) :
+    RefinesAt (ops K F d) (.leaf l) c := by
   apply refinesAt_embed Iter.leaf _ _ _ _ h
   · intro t; cases d <;> rfl
   · intro k t; cases d <;> rfl
   · intro t; cases d <;> rfl
   · intro _ _; trivial
 
-theorem empty_embed (F d : Nat) : RefinesAt (ops F d) .empty (start []) := by
+theorem empty_embed (K : Nat → Prop) (F d : Nat) : RefinesAt (ops K F d) .empty (start []) := by
   apply refinesAt_embed (fun _ : Unit => Iter.empty) _ _ _ _ empty_refines
   · intro t; cases d <;> rfl
   · intro k t; cases d <;> rfl
   · intro t; cases d <;> rfl
   · intro _ _; trivial
 
-theorem union_embed (F d : Nat) {st : UnionState Iter} {c : Cursor}
-    (h : RefinesAt (Union.ops (ops F d)) st c) : RefinesAt (ops F (d + 1)) (.union st) c :=
-  refinesAt_embed Iter.union (fun _ => rfl) (fun _ _ => rfl) (fun _ => rfl) (fun k _ => ops_dom F d k) h
+theorem union_embed (K : Nat → Prop) (F d : Nat) {st : UnionState Iter} {c : Cursor}
+    (h : RefinesAt (Union.ops (ops K F d)) st c) : RefinesAt (ops K F (d + 1)) (.union st) c :=
+  refinesAt_embed Iter.union (fun _ => rfl) (fun _ _ => rfl) (fun _ => rfl) (fun k hk => ops_dom K F d k hk) h
 
-theorem inter_embed (F d : Nat) {its : List Iter} {c : Cursor}
-    (h : RefinesAt (Inter.ops (ops F d) F) its c) : RefinesAt (ops F (d + 1)) (.inter its) c :=
-  refinesAt_embed Iter.inter (fun _ => rfl) (fun _ _ => rfl) (fun _ => rfl) (fun k _ => ops_dom F d k) h
+theorem inter_embed (K : Nat → Prop) (F d : Nat) {its : List Iter} {c : Cursor}
+    (h : RefinesAt (Inter.ops (ops K F d) F) its c) : RefinesAt (ops K F (d + 1)) (.inter its) c :=
+  refinesAt_embed Iter.inter (fun _ => rfl) (fun _ _ => rfl) (fun _ => rfl) (fun k hk => ops_dom K F d k hk) h
 
-theorem range_embed (F d : Nat) {st : RangeState Iter} {c : Cursor}
-    (h : RefinesAt (Range.ops (ops F d)) st c) : RefinesAt (ops F (d + 1)) (.range st) c :=
-  refinesAt_embed Iter.range (fun _ => rfl) (fun _ _ => rfl) (fun _ => rfl) (fun k _ => ops_dom F d k) h
+theorem range_embed (K : Nat → Prop) (F d : Nat) {st : RangeState Iter} {c : Cursor}
+    (h : RefinesAt (Range.ops (ops K F d)) st c) : RefinesAt (ops K F (d + 1)) (.range st) c :=
+  refinesAt_embed Iter.range (fun _ => rfl) (fun _ _ => rfl) (fun _ => rfl) (fun k hk => ops_dom K F d k hk) h
 
-theorem tprefix_embed (F d : Nat) {it : Iter} {c : Cursor}
-    (h : RefinesAt (ops F d) it c) : RefinesAt (ops F (d + 1)) (.tprefix it) c :=
-  refinesAt_embed Iter.tprefix (fun _ => rfl) (fun _ _ => rfl) (fun _ => rfl) (fun k _ => ops_dom F d k) h
+theorem tprefix_embed (K : Nat → Prop) (F d : Nat) {it : Iter} {c : Cursor}
+    (h : RefinesAt (ops K F d) it c) : RefinesAt (ops K F (d + 1)) (.tprefix it) c :=
+  refinesAt_embed Iter.tprefix (fun _ => rfl) (fun _ _ => rfl) (fun _ => rfl) (fun k hk => ops_dom K F d k hk) h
 
-theorem indexBegin_refines (F d : Nat) (ix : Index) (hv : ix.Valid) (t : Token) :
-    Refines (ops F d) (indexBegin ix t) (ix.get t) := by
+/-! ## compact leaves -/
+
+open B6.Model.Posting in
+theorem pleafLift_eq (names : List String) (pl : PostingList) (r : Except B6.Model.Posting.Err (Bool × It)) :
+    pleafLift names pl r = liftRes (fun s : PostingList × It => Iter.pleaf names s.1 s.2) (liftPosting pl r) := by
+  cases r with
+  | ok p => rfl
+  | error e => cases e <;> rfl
+
+open B6.Model.Posting in
+/-- a compact leaf of the closed type is C08's iterator: transport `posting_refines` -/
+theorem pleaf_embed (K : Nat → Prop) (F d : Nat) (names : List String)
+    (hK : ∀ k, K k → TnOK ⟨names⟩ (k / 2 ^ 64)) {s : PostingList × It} {c : Cursor}
+    (h : RefinesAt (postingOps ⟨names⟩) s c) : RefinesAt (ops K F d) (.pleaf names s.1 s.2) c := by
+  apply refinesAt_embed (fun s : PostingList × It => Iter.pleaf names s.1 s.2) _ _ _ _ h
+  · intro t
+    cases d <;> exact pleafLift_eq names t.1 _
+  · intro k t
+    cases d <;> exact pleafLift_eq names t.1 _
+  · intro t; cases d <;> rfl
+  · intro k hk; exact hK k (dom_ops hk)
+
+/-- what a compact index must satisfy for C08 to apply: a sorted namespace table of at most 8192 names, and every
+posted key has a non-zero `TypeAndNamespace` that the table can decode -/
+def CompactOK (ix : Index) : Prop :=
+  ix.kind = .compact →
+    B6.Model.Posting.TableOK ⟨ix.names⟩ ∧
+    ∀ e ∈ ix.lists, ∀ x ∈ e.2, x / 2 ^ 64 ≠ 0 ∧ B6.Model.Posting.TnOK ⟨ix.names⟩ (x / 2 ^ 64)
+
+theorem map_keyNat_unkey (xs : List Nat) : (xs.map unkey).map B6.Model.Posting.keyNat = xs := by
+  rw [List.map_map]
+  conv => rhs; rw [← List.map_id xs]
+  apply List.map_congr_left
+  intro x _
+  simp only [Function.comp, unkey, B6.Model.Posting.keyNat, id]
+  omega
+
+open B6.Model.Posting in
+theorem postingOK_unkey (tbl : Table) (xs : List Nat) (hs : StrictSorted xs)
+    (hx : ∀ x ∈ xs, x / 2 ^ 64 ≠ 0 ∧ TnOK tbl (x / 2 ^ 64)) : PostingOK tbl (xs.map unkey) := by
+  refine ⟨?_, ?_, ?_⟩
+  · intro id hid
+    obtain ⟨x, hxm, rfl⟩ := List.mem_map.1 hid
+    exact ⟨Nat.mod_lt _ (by omega), (hx x hxm).1⟩
+  · unfold SortedIds
+    rw [List.pairwise_map]
+    unfold StrictSorted at hs
+    refine hs.imp ?_
+    intro a b hab
+    unfold idLt unkey
+    simp only
+    omega
+  · intro id hid
+    obtain ⟨x, hxm, rfl⟩ := List.mem_map.1 hid
+    exact (hx x hxm).2
+
+theorem dom_of_compactOK (ix : Index) (hc : CompactOK ix) : ∀ e ∈ ix.lists, ∀ x ∈ e.2, ix.dom x := by
+  intro e he x hx
+  unfold Index.dom
+  cases hk : ix.kind with
+  | compact => exact (hc hk).2 e he x hx |>.2
+  | array => trivial
+  | tree => trivial
+
+/-- the iterator an index hands out for one of its posting lists refines the cursor of that list -/
+theorem mkLeaf_refines (F d : Nat) (ix : Index) (hc : CompactOK ix) (xs : List Nat) (hs : StrictSorted xs)
+    (hx : ∀ x ∈ xs, ix.kind = .compact →
+      x / 2 ^ 64 ≠ 0 ∧ B6.Model.Posting.TnOK ⟨ix.names⟩ (x / 2 ^ 64)) :
+    Refines (ops ix.dom F d) (mkLeaf ix xs) xs := by
+  unfold mkLeaf
+  cases hk : ix.kind with
+  | compact =>
+    obtain ⟨ht, _⟩ := hc hk
+    have hok := postingOK_unkey ⟨ix.names⟩ xs hs (fun x hxm => hx x hxm hk)
+    have href := posting_refines [] (xs.map unkey) ⟨ix.names⟩ ht hok
+    rw [map_keyNat_unkey] at href
+    exact pleaf_embed ix.dom F d ix.names
+      (by intro k hkk; unfold Index.dom at hkk; rw [hk] at hkk; exact hkk) href
+  | array => exact leaf_embed _ F d (leaf_refines .array xs hs)
+  | tree => exact leaf_embed _ F d (leaf_refines .tree xs hs)
+
+theorem indexBegin_refines (F d : Nat) (ix : Index) (hv : ix.Valid) (hc : CompactOK ix) (t : Token) :
+    Refines (ops ix.dom F d) (indexBegin ix t) (ix.get t) := by
   have hs := (get_spec ix hv t).1
   unfold indexBegin Index.get at *
-  cases hl : ix.lookup t with
-  | none => exact empty_embed F d
-  | some xs =>
+  unfold Index.lookup at *
+  cases hl : ix.lists.find? (fun e => e.1 == t) with
+  | none => exact empty_embed _ F d
+  | some e =>
     rw [hl] at hs
-    exact leaf_embed F d (leaf_refines ix.kind xs hs)
+    have he := List.mem_of_find?_eq_some hl
+    simp only [Option.map_some] at hs ⊢
+    exact mkLeaf_refines F d ix hc e.2 hs (fun x hx hk => (hc hk).2 e he x hx)
 
 /-! ## the main induction -/
 
-/-- **compile_refines.** For a valid index, any well-formed query tree (of any depth), fuel above the size
-of the index and a depth index at least the tree's depth, the compiled iterator refines the spec cursor of
-the list the query denotes. -/
-theorem compile_refines (F : Nat) (ix : Index) (hv : ix.Valid) (hF : ix.total < F) :
-    (q : SQuery) → q.WF → ∀ d, depth q ≤ d → Refines (ops F d) (compile F ix q) (q.denote ix)
-  | .empty, _, d, _ => by
-    simp only [compile, SQuery.denote]; exact empty_embed F d
-  | .all t, _, d, _ => by
-    simp only [compile, SQuery.denote]; exact indexBegin_refines F d ix hv t
-  | .union qs, hw, d, hd => by
+theorem keysInList_iff (K : Nat → Prop) : ∀ qs : List SQuery, SQuery.KeysInList K qs ↔ ∀ q ∈ qs, q.KeysIn K
+  | [] => by simp [SQuery.KeysInList]
+  | q :: qs => by simp [SQuery.KeysInList, keysInList_iff K qs]
+
+theorem dom_of_mem_denote (ix : Index) (hv : ix.Valid) (hc : CompactOK ix) (q : SQuery) :
+    ∀ x ∈ q.denote ix, ix.dom x := by
+  intro x hx
+  have := (denote_spec ix hv q).2 x hx
+  unfold allValues at this
+  obtain ⟨l, hl, hxl⟩ := List.mem_flatten.1 this
+  obtain ⟨e, he, rfl⟩ := List.mem_map.1 hl
+  exact dom_of_compactOK ix hc e he x hxl
+
+/-- **compile_refines.** For a valid index of any kind (array, tree, or compact with a decodable namespace table),
+any well-formed query tree (of any depth) whose key-range bounds lie in the index's key domain, fuel above the
+size of the index and a depth index at least the tree's depth, the compiled iterator refines the spec cursor of
+the list the query denotes — for call sequences whose `Advance` keys lie in the domain (all keys, for the in-memory
+kinds). -/
+theorem compile_refines (F : Nat) (ix : Index) (hv : ix.Valid) (hc : CompactOK ix) (hF : ix.total < F) :
+    (q : SQuery) → q.WF → q.KeysIn ix.dom → ∀ d, depth q ≤ d →
+      Refines (ops ix.dom F d) (compile F ix q) (q.denote ix)
+  | .empty, _, _, d, _ => by
+    simp only [compile, SQuery.denote]; exact empty_embed _ F d
+  | .all t, _, _, d, _ => by
+    simp only [compile, SQuery.denote]; exact indexBegin_refines F d ix hv hc t
+  | .union qs, hw, hk, d, hd => by
     simp only [depth] at hd
     obtain ⟨d', rfl⟩ : ∃ d', d = d' + 1 := ⟨d - 1, by omega⟩
     simp only [SQuery.WF] at hw
     rw [wfList_iff] at hw
+    simp only [SQuery.KeysIn] at hk
+    rw [keysInList_iff] at hk
     simp only [compile, SQuery.denote]
     apply union_embed
-    have := union_refines (ops F d') (qs.map (fun q => (compile F ix q, q.denote ix)))
+    have := union_refines (ops ix.dom F d') (qs.map (fun q => (compile F ix q, q.denote ix)))
       (sortDedup (SQuery.denoteList ix qs).flatten)
       (by
         intro p hp
         obtain ⟨q, hq, rfl⟩ := List.mem_map.1 hp
-        exact compile_refines F ix hv hF q (hw q hq) d' (by have := depth_le_depthList qs q hq; omega))
+        exact compile_refines F ix hv hc hF q (hw q hq) (hk q hq) d'
+          (by have := depth_le_depthList qs q hq; omega))
       (sortDedup_sorted _)
       (by
         intro x
@@ -362,21 +466,24 @@ theorem compile_refines (F : Nat) (ix : Index) (hv : ix.Valid) (hF : ix.total < 
     rw [List.map_map] at this
     rw [compileList_eq]
     exact this
-  | .inter qs, hw, d, hd => by
+  | .inter qs, hw, hk, d, hd => by
     simp only [depth] at hd
     obtain ⟨d', rfl⟩ : ∃ d', d = d' + 1 := ⟨d - 1, by omega⟩
     simp only [SQuery.WF] at hw
     obtain ⟨hne, hw⟩ := hw
     rw [wfList_iff] at hw
+    simp only [SQuery.KeysIn] at hk
+    rw [keysInList_iff] at hk
     simp only [compile, SQuery.denote, Inter.new]
     apply inter_embed
-    have := inter_refines (ops F d') F (ops F (depthList qs)).estimate
+    have := inter_refines (ops ix.dom F d') F (ops (fun _ => True) F (depthList qs)).estimate
       (qs.map (fun q => (compile F ix q, q.denote ix))) (interLists (SQuery.denoteList ix qs))
       (by simpa using hne)
       (by
         intro p hp
         obtain ⟨q, hq, rfl⟩ := List.mem_map.1 hp
-        refine ⟨compile_refines F ix hv hF q (hw q hq) d' (by have := depth_le_depthList qs q hq; omega), ?_⟩
+        refine ⟨compile_refines F ix hv hc hF q (hw q hq) (hk q hq) d'
+          (by have := depth_le_depthList qs q hq; omega), ?_⟩
         have := denote_length_le ix hv q
         show (q.denote ix).length < F
         omega)
@@ -400,18 +507,23 @@ theorem compile_refines (F : Nat) (ix : Index) (hv : ix.Valid) (hF : ix.total < 
             have hl' : l ∈ List.map (SQuery.denote ix) (q :: qs) := by simpa using hl
             obtain ⟨q', hq', rfl⟩ := List.mem_map.1 hl'
             exact h _ (List.mem_map.2 ⟨q', hq', rfl⟩))
-      (fun _ _ x _ => ops_dom F d' x)
+      (by
+        intro p hp x hx
+        obtain ⟨q, hq, rfl⟩ := List.mem_map.1 hp
+        exact ops_dom _ F d' x (dom_of_mem_denote ix hv hc q x hx))
     rw [List.map_map] at this
     rw [compileList_eq]
     exact this
-  | .keyRange b e q, hw, d, hd => by
+  | .keyRange b e q, hw, hk, d, hd => by
     simp only [depth] at hd
     obtain ⟨d', rfl⟩ : ∃ d', d = d' + 1 := ⟨d - 1, by omega⟩
     simp only [SQuery.WF] at hw
+    simp only [SQuery.KeysIn] at hk
     simp only [compile, SQuery.denote]
     apply range_embed
-    exact range_refines (ops F d') b e (compile_refines F ix hv hF q hw d' (by omega)) (ops_dom F d' b)
-  | .tokenPrefix p, _, d, hd => by
+    exact range_refines (ops ix.dom F d') b e (compile_refines F ix hv hc hF q hw hk.2 d' (by omega))
+      (ops_dom _ F d' b hk.1)
+  | .tokenPrefix p, _, _, d, hd => by
     simp only [depth] at hd
     obtain ⟨d', rfl⟩ : ∃ d', d = d' + 2 := ⟨d - 2, by omega⟩
     obtain ⟨hnone, hsome⟩ := prefixRun_spec ix hv p
@@ -422,17 +534,18 @@ theorem compile_refines (F : Nat) (ix : Index) (hv : ix.Valid) (hF : ix.total < 
         rw [List.filter_eq_nil_iff]
         intro e he; rw [hnone hr e he]; simp
       rw [this]
-      exact empty_embed F _
+      exact empty_embed _ F _
     | some run =>
       simp only
       apply tprefix_embed
       apply union_embed
-      have := union_refines (ops F d') (run.map (fun e => (Iter.leaf ⟨ix.kind, e.2, 0⟩, e.2)))
+      have := union_refines (ops ix.dom F d') (run.map (fun e => (mkLeaf ix e.2, e.2)))
         (sortDedup ((ix.lists.filter (fun e => p.isPrefixOf e.1)).map (·.2)).flatten)
         (by
           intro q hq
           obtain ⟨e, he, rfl⟩ := List.mem_map.1 hq
-          exact leaf_embed F d' (leaf_refines ix.kind e.2 (hv.2 e ((hsome run hr e).1 he).1)))
+          have hel := ((hsome run hr e).1 he).1
+          exact mkLeaf_refines F d' ix hc e.2 (hv.2 e hel) (fun x hx hk => (hc hk).2 e hel x hx))
         (sortDedup_sorted _)
         (by
           intro x
